@@ -1,0 +1,25 @@
+// Copyright The gittuf Authors
+// SPDX-License-Identifier: Apache-2.0
+
+//go:build verif
+
+// gvc contracts (comment-only, read under the "verif" build tag).
+
+package tuf
+
+//@ # Principals are treated as immutable values: identifier and key set are functions of the principal.
+//@ spec pID(p Principal) string
+//@ spec pHasKey(p Principal, kid string) bool
+
+//@ func ext:(internal/tuf.Principal).ID -> (r)
+//@   trusted
+//@   pure
+//@   ensures r == pID(self)
+
+//@ func ext:(internal/tuf.Principal).Keys -> (ks)
+//@   trusted
+//@   pure
+//@   ensures forall j :: 0 <= j && j < len(ks) ==> ks[j] != nil && pHasKey(self, ks[j].KeyID)
+//@   # A-keyid: a Sigstore key's KeyID is "<identity>::<issuer>" (true for keys made by gittuf; assumed for metadata read from disk)
+//@   ensures forall j :: 0 <= j && j < len(ks) && ks[j].KeyType == "sigstore-oidc" ==> ks[j].KeyID == ks[j].KeyVal.Identity + "::" + ks[j].KeyVal.Issuer
+//@   ensures forall kid string :: pHasKey(self, kid) ==> (exists j :: 0 <= j && j < len(ks) && ks[j].KeyID == kid)
